@@ -58,14 +58,14 @@ theorem withModelState_global {R : Type} (st : G) (setter : G → World G → Wo
 
 variable (cfg : Config)
 
-theorem undecoratedSample_eq (m : MId) (c : Call Draw) (w : World G) :
+theorem undecoratedSample_eq (m : Nat) (c : Call Draw) (w : World G) :
     undecoratedSample A cfg m c w = drawGlobal A c w := by
   unfold undecoratedSample
   cases cfg.kind m <;> rfl
 
 /-- a decorated sampler on a seeded model: the global state is untouched, the model gets a fresh
     object holding the advanced state, the result is computed from the model's own stream. -/
-theorem sample_seeded {m : MId} {r : Ref} (c : Call Draw) {w : World G}
+theorem sample_seeded {m : Nat} {r : Nat} (c : Call Draw) {w : World G}
     (hd : cfg.decorated m = true) (hr : w.rs m = some r) :
     sample A cfg m c w =
       (⟨w.global, upd w.heap w.next (advDraws A (w.heap r) c.draws), w.next + 1,
@@ -75,7 +75,7 @@ theorem sample_seeded {m : MId} {r : Ref} (c : Call Draw) {w : World G}
     storeFresh]
 
 /-- otherwise (no decorator, or `random_state is None`) the call is the body on the global stream. -/
-theorem sample_unseeded {m : MId} (c : Call Draw) {w : World G}
+theorem sample_unseeded {m : Nat} (c : Call Draw) {w : World G}
     (h : seeded cfg w m = false) : sample A cfg m c w = drawGlobal A c w := by
   have hu : undecoratedSample A cfg m c = drawGlobal A c := funext (undecoratedSample_eq A cfg m c)
   unfold sample
@@ -88,7 +88,7 @@ theorem sample_unseeded {m : MId} (c : Call Draw) {w : World G}
       | some r => simp [seeded, hd, hrs] at h
     simp [hu, decorate, decorateWith, World.view, this]
 
-theorem seeded_iff {m : MId} {w : World G} :
+theorem seeded_iff {m : Nat} {w : World G} :
     seeded cfg w m = true ↔ cfg.decorated m = true ∧ ∃ r, w.rs m = some r := by
   unfold seeded
   cases cfg.decorated m <;> cases w.rs m <;> simp
@@ -109,7 +109,7 @@ theorem datasetBimodal_eq (seed : Nat) (dsB dsM : List Draw) (w : World G) :
 
 /-! ### one step of a history -/
 
-theorem stepW_sample (m : MId) (c : Call Draw) (w : World G) :
+theorem stepW_sample (m : Nat) (c : Call Draw) (w : World G) :
     stepW A cfg w (.sample m c) = (sample A cfg m c w).1 := rfl
 
 /-- well-formedness is an invariant. -/
@@ -167,6 +167,350 @@ theorem WF_runW {w : World G} (hw : WF w) (h : List (Op Draw)) : WF (runW A cfg 
   induction h generalizing w with
   | nil => exact hw
   | cons op h ih => exact ih (WF_step A cfg hw op)
+
+/-! ### the view of one model -/
+
+theorem view_frame {w w' : World G} {m : Nat} (hrs : w'.rs m = w.rs m)
+    (hheap : ∀ r, w.rs m = some r → w'.heap r = w.heap r) : w'.view m = w.view m := by
+  unfold World.view
+  rw [hrs]
+  cases h : w.rs m with
+  | none => rfl
+  | some r => simp [hheap r h]
+
+theorem isoRun_append (v : Option G) (xs ys : List (MOp G Draw)) :
+    isoRun A v (xs ++ ys) = isoRun A (isoRun A v xs) ys := by
+  simp [isoRun, List.foldl_append]
+
+theorem isoOutputs_append (v : Option G) (xs ys : List (MOp G Draw)) :
+    isoOutputs (Out := Out) A v (xs ++ ys) = isoOutputs A v xs ++ isoOutputs A (isoRun A v xs) ys := by
+  induction xs generalizing v with
+  | nil => simp [isoOutputs, isoRun]
+  | cons x xs ih =>
+    cases x <;> simp [isoOutputs, isoRun, ih]
+
+/-- **one step, seen from model `m`** (decorated sampler): the model's generator state after the
+    step and what the step returned to a caller of `m.sample` are those of the isolated machine
+    fed with the part of the op that concerns `m`. -/
+theorem step_own {w : World G} (hw : WF w) {m : Nat} (hd : cfg.decorated m = true)
+    (op : Op Draw) :
+    (stepW A cfg w op).view m = isoRun A (w.view m) (ownOp A w m op) ∧
+    maskedOp A cfg m w op = isoOutputs A (w.view m) (ownOp A w m op) := by
+  cases op with
+  | sample m' c =>
+    by_cases hm : m' = m
+    · subst hm
+      cases hrs : w.rs m' with
+      | none =>
+        have hs : seeded cfg w m' = false := by simp [seeded, hrs]
+        simp [stepW_sample, sample_unseeded A cfg c hs, maskedOp, ownOp, hrs, World.view, isoRun,
+          isoStep, isoOutputs, drawGlobal]
+      | some r =>
+        simp [stepW_sample, sample_seeded A cfg c hd hrs, maskedOp, ownOp, hrs, World.view, isoRun,
+          isoStep, isoOutputs]
+    · have hown : ownOp A w m (Op.sample m' c) = [] := by simp [ownOp, hm]
+      have hmask : maskedOp A cfg m w (Op.sample m' c) = [] := by simp [maskedOp, hm]
+      rw [hown, hmask]
+      refine ⟨?_, by simp [isoOutputs]⟩
+      simp only [isoRun, List.foldl_nil]
+      rw [stepW_sample]
+      cases hs : seeded cfg w m' with
+      | false => rw [sample_unseeded A cfg c hs]; rfl
+      | true =>
+        obtain ⟨hd', r', hr'⟩ := (seeded_iff cfg).1 hs
+        rw [sample_seeded A cfg c hd' hr']
+        apply view_frame
+        · exact upd_other _ _ (Ne.symm hm)
+        · intro r hr
+          have := hw m r hr
+          exact upd_other _ _ (by omega)
+  | setState m' s =>
+    by_cases hm : m' = m
+    · subst hm
+      cases s with
+      | none => simp [stepW, step, setRandomState, ownOp, maskedOp, World.view, isoRun, isoStep, isoOutputs]
+      | int n =>
+        simp [stepW, step, setRandomState, storeFresh, ownOp, maskedOp, World.view, isoRun, isoStep,
+          isoOutputs]
+      | obj r =>
+        by_cases hr : r < w.next
+        · simp [stepW, step, setRandomState, ownOp, maskedOp, World.view, isoRun, isoStep,
+            isoOutputs, hr]
+        · simp [stepW, step, setRandomState, ownOp, maskedOp, isoRun, isoOutputs, hr]
+    · have hown : ownOp A w m (Op.setState m' s) = [] := by cases s <;> simp [ownOp, hm]
+      rw [hown]
+      refine ⟨?_, by simp [maskedOp, isoOutputs]⟩
+      simp only [isoRun, List.foldl_nil]
+      cases s with
+      | none =>
+        apply view_frame
+        · exact upd_other _ _ (Ne.symm hm)
+        · intro r _; rfl
+      | int n =>
+        apply view_frame
+        · exact upd_other _ _ (Ne.symm hm)
+        · intro r hr
+          have := hw m r hr
+          exact upd_other _ _ (by omega)
+      | obj r =>
+        by_cases hr : r < w.next
+        · simp only [stepW, step, setRandomState, hr, if_true]
+          apply view_frame
+          · exact upd_other _ _ (Ne.symm hm)
+          · intro r _; rfl
+        · simp only [stepW, step, setRandomState, hr, if_false]
+  | callerNew n =>
+    refine ⟨?_, by simp [maskedOp, ownOp, isoOutputs]⟩
+    simp only [ownOp, isoRun, List.foldl_nil]
+    apply view_frame
+    · rfl
+    · intro r hr
+      have := hw m r hr
+      exact upd_other _ _ (by omega)
+  | callerDraw r d =>
+    by_cases hr : r < w.next
+    · cases hrs : w.rs m with
+      | none => simp [stepW, step, hr, ownOp, maskedOp, World.view, hrs, isoRun, isoOutputs]
+      | some r' =>
+        by_cases hrr : r' = r
+        · subst hrr
+          simp [stepW, step, hr, ownOp, maskedOp, World.view, hrs, isoRun, isoStep, isoOutputs]
+        · have hne : ¬ r = r' := fun h => hrr h.symm
+          simp [stepW, step, hr, ownOp, maskedOp, World.view, hrs, isoRun, isoOutputs, hrr,
+            upd_other]
+    · simp [stepW, step, hr, ownOp, maskedOp, isoRun, isoOutputs]
+  | seedGlobal n => simp [stepW, step, ownOp, maskedOp, World.view, isoRun, isoOutputs]
+  | dataset seed ds => simp [stepW, step, datasetSimple_eq, ownOp, maskedOp, isoRun, isoOutputs]
+  | datasetBimodal seed dsB dsM =>
+    simp [stepW, step, datasetBimodal_eq, ownOp, maskedOp, isoRun, isoOutputs]
+
+/-- **history level**: final state and (masked) outputs of `m` are those of the isolated machine
+    on `m`'s own operations. -/
+theorem run_own {w : World G} (hw : WF w) {m : Nat} (hd : cfg.decorated m = true)
+    (h : List (Op Draw)) :
+    (runW A cfg w h).view m = isoRun A (w.view m) (ownOps A cfg m w h) ∧
+    maskedOutputs A cfg m w h = isoOutputs A (w.view m) (ownOps A cfg m w h) := by
+  induction h generalizing w with
+  | nil => simp [runW, ownOps, maskedOutputs, isoRun, isoOutputs]
+  | cons op h ih =>
+    obtain ⟨h1, h2⟩ := step_own A cfg hw hd op
+    obtain ⟨i1, i2⟩ := ih (WF_step A cfg hw op)
+    simp only [runW, ownOps, maskedOutputs]
+    rw [isoRun_append, isoOutputs_append, i1, i2, h1, h2]
+    exact ⟨rfl, rfl⟩
+
+/-- without caller draws and `RandomState` seeds for `m`, the part of a history that concerns
+    `m` can be read off the history alone. -/
+theorem ownOps_eq_proj {m : Nat} (w : World G) (h : List (Op Draw))
+    (hp : plainFor m h = true) : ownOps A cfg m w h = proj A m h := by
+  induction h generalizing w with
+  | nil => simp [ownOps, proj]
+  | cons op h ih =>
+    simp only [plainFor, List.all_cons, Bool.and_eq_true] at hp
+    have ih' := ih (stepW A cfg w op) (by simpa [plainFor] using hp.2)
+    simp only [ownOps, proj, List.flatMap_cons] at ih' ⊢
+    rw [ih']
+    congr 1
+    cases op with
+    | setState m' s =>
+      cases s with
+      | obj r =>
+        have : m' ≠ m := by
+          intro e; subst e; simp [plainOp] at hp
+        simp [ownOp, projOp, this]
+      | _ => rfl
+    | callerDraw r d => simp [plainOp] at hp
+    | _ => rfl
+
+/-! ### `RandomState` objects are never mutated by the library -/
+
+def noCallerDraw : Op Draw → Bool
+  | .callerDraw _ _ => false
+  | _ => true
+
+theorem step_next_le (w : World G) (op : Op Draw) : w.next ≤ (stepW A cfg w op).next := by
+  cases op with
+  | sample m c =>
+    rw [stepW_sample]
+    cases hs : seeded cfg w m with
+    | false => rw [sample_unseeded A cfg c hs]; exact Nat.le_refl _
+    | true =>
+      obtain ⟨hd, r, hr⟩ := (seeded_iff cfg).1 hs
+      rw [sample_seeded A cfg c hd hr]; exact Nat.le_succ _
+  | setState m s =>
+    cases s with
+    | obj r => by_cases hr : r < w.next <;> simp [stepW, step, setRandomState, hr]
+    | _ => simp [stepW, step, setRandomState, storeFresh]
+  | callerNew n => simp [stepW, step]
+  | callerDraw r d => by_cases hr : r < w.next <;> simp [stepW, step, hr]
+  | seedGlobal n => simp [stepW, step]
+  | dataset seed ds => simp [stepW, step, datasetSimple_eq]
+  | datasetBimodal seed dsB dsM => simp [stepW, step, datasetBimodal_eq]
+
+theorem step_heap_frame (w : World G) (op : Op Draw) (hop : noCallerDraw op = true) {r : Nat}
+    (hr : r < w.next) : (stepW A cfg w op).heap r = w.heap r := by
+  have hne : r ≠ w.next := by omega
+  cases op with
+  | sample m c =>
+    rw [stepW_sample]
+    cases hs : seeded cfg w m with
+    | false => rw [sample_unseeded A cfg c hs]; rfl
+    | true =>
+      obtain ⟨hd, r', hr'⟩ := (seeded_iff cfg).1 hs
+      rw [sample_seeded A cfg c hd hr']; exact upd_other _ _ hne
+  | setState m s =>
+    cases s with
+    | obj r' => by_cases hr' : r' < w.next <;> simp [stepW, step, setRandomState, hr']
+    | none => simp [stepW, step, setRandomState]
+    | int n => simp [stepW, step, setRandomState, storeFresh, upd_other _ _ hne]
+  | callerNew n => simp [stepW, step, upd_other _ _ hne]
+  | callerDraw r d => simp [noCallerDraw] at hop
+  | seedGlobal n => simp [stepW, step]
+  | dataset seed ds => simp [stepW, step, datasetSimple_eq]
+  | datasetBimodal seed dsB dsM => simp [stepW, step, datasetBimodal_eq]
+
+theorem run_heap_frame (w : World G) (h : List (Op Draw)) (hh : h.all noCallerDraw = true)
+    {r : Nat} (hr : r < w.next) : (runW A cfg w h).heap r = w.heap r := by
+  induction h generalizing w with
+  | nil => rfl
+  | cons op h ih =>
+    simp only [List.all_cons, Bool.and_eq_true] at hh
+    simp only [runW]
+    rw [ih _ hh.2 (Nat.lt_of_lt_of_le hr (step_next_le A cfg w op)),
+      step_heap_frame A cfg w op hh.1 hr]
+
+/-! ### the global stream -/
+
+theorem step_global (w : World G) (op : Op Draw) :
+    (stepW A cfg w op).global = applyG A w.global (globalOp cfg w op) := by
+  cases op with
+  | sample m c =>
+    rw [stepW_sample]
+    cases hs : seeded cfg w m with
+    | false => simp [sample_unseeded A cfg c hs, globalOp, hs, applyG, drawGlobal]
+    | true =>
+      obtain ⟨hd, r, hr⟩ := (seeded_iff cfg).1 hs
+      simp [sample_seeded A cfg c hd hr, globalOp, hs, applyG]
+  | setState m s =>
+    cases s with
+    | obj r => by_cases hr : r < w.next <;> simp [stepW, step, setRandomState, globalOp, applyG, hr]
+    | _ => simp [stepW, step, setRandomState, storeFresh, globalOp, applyG]
+  | callerNew n => simp [stepW, step, globalOp, applyG]
+  | callerDraw r d => by_cases hr : r < w.next <;> simp [stepW, step, globalOp, applyG, hr]
+  | seedGlobal n => simp [stepW, step, globalOp, applyG]
+  | dataset seed ds => simp [stepW, step, datasetSimple_eq, globalOp, applyG]
+  | datasetBimodal seed dsB dsM => simp [stepW, step, datasetBimodal_eq, globalOp, applyG]
+
+theorem applyG_append (g : G) (xs ys : List (GEvent Draw)) :
+    applyG A g (xs ++ ys) = applyG A (applyG A g xs) ys := by
+  induction xs generalizing g with
+  | nil => rfl
+  | cons x xs ih => cases x <;> simp [applyG, ih]
+
+theorem run_global (w : World G) (h : List (Op Draw)) :
+    (runW A cfg w h).global = applyG A w.global (globalOps A cfg w h) := by
+  induction h generalizing w with
+  | nil => rfl
+  | cons op h ih =>
+    simp only [runW, globalOps]
+    rw [ih, step_global, applyG_append]
+
+theorem globalOps_of_quiet (w : World G) (h : List (Op Draw)) (hq : quiet A cfg w h = true) :
+    globalOps A cfg w h = [] := by
+  induction h generalizing w with
+  | nil => rfl
+  | cons op h ih =>
+    simp only [quiet, Bool.and_eq_true, List.isEmpty_iff] at hq
+    simp [globalOps, hq.1, ih _ hq.2]
+
+end
+
+/-! ### homomorphisms of generator algebras: the run of a history is natural in the algebra -/
+
+section
+variable {G G' Draw Out Out' : Type}
+
+/-- `φ`/`ψ` commute with the three operations. -/
+structure Hom (A : GenAlg G Draw Out) (A' : GenAlg G' Draw Out') (φ : G → G') (ψ : Out → Out') :
+    Prop where
+  advance : ∀ g d, φ (A.advance g d) = A'.advance (φ g) d
+  out : ∀ g d, ψ (A.out g d) = A'.out (φ g) d
+  fromSeed : ∀ n, φ (A.fromSeed n) = A'.fromSeed n
+
+variable {A : GenAlg G Draw Out} {A' : GenAlg G' Draw Out'} {φ : G → G'} {ψ : Out → Out'}
+
+theorem Hom.advDraws (H : Hom A A' φ ψ) (g : G) (ds : List Draw) :
+    φ (advDraws A g ds) = advDraws A' (φ g) ds := by
+  induction ds generalizing g with
+  | nil => rfl
+  | cons d ds ih => simp [ih, H.advance]
+
+theorem Hom.outDraws (H : Hom A A' φ ψ) (g : G) (ds : List Draw) :
+    (outDraws A g ds).map ψ = outDraws A' (φ g) ds := by
+  induction ds generalizing g with
+  | nil => rfl
+  | cons d ds ih => simp [Rng.outDraws, ih, H.advance, H.out]
+
+theorem Hom.result (H : Hom A A' φ ψ) (g : G) (c : Call Draw) :
+    (result A g c).map ψ = result A' (φ g) c := by
+  unfold Rng.result
+  cases c.raises <;> simp [Result.map, H.outDraws]
+
+theorem map_upd (φ : G → G') (f : Nat → G) (k : Nat) (v : G) :
+    (fun r => φ (upd f k v r)) = upd (fun r => φ (f r)) k (φ v) := by
+  funext r
+  by_cases h : r = k <;> simp [upd, h]
+
+theorem Hom.step (H : Hom A A' φ ψ) (cfg : Config) (w : World G) (op : Op Draw) :
+    step A' cfg (w.map φ) op =
+      ((step A cfg w op).1.map φ, (step A cfg w op).2.map (Result.map ψ)) := by
+  cases op with
+  | sample m c =>
+    cases hs : seeded cfg w m with
+    | false =>
+      have hs' : seeded cfg (w.map φ) m = false := hs
+      simp only [Rng.step]
+      rw [sample_unseeded A cfg c hs, sample_unseeded A' cfg c hs']
+      simp [drawGlobal, World.map, H.advDraws, H.result]
+    | true =>
+      obtain ⟨hd, r, hr⟩ := (seeded_iff cfg).1 hs
+      have hr' : (w.map φ).rs m = some r := hr
+      simp only [Rng.step]
+      rw [sample_seeded A cfg c hd hr, sample_seeded A' cfg c hd hr']
+      simp [World.map, H.advDraws, H.result, map_upd]
+  | setState m s =>
+    cases s with
+    | none => simp [Rng.step, setRandomState, World.map]
+    | int n => simp [Rng.step, setRandomState, storeFresh, World.map, map_upd, H.fromSeed]
+    | obj r => by_cases hr : r < w.next <;> simp [Rng.step, setRandomState, World.map, hr]
+  | callerNew n => simp [Rng.step, World.map, map_upd, H.fromSeed]
+  | callerDraw r d =>
+    by_cases hr : r < w.next <;> simp [Rng.step, World.map, hr, map_upd, H.advance]
+  | seedGlobal n => simp [Rng.step, World.map, H.fromSeed]
+  | dataset seed ds =>
+    simp [Rng.step, datasetSimple_eq, World.map, Result.map, H.outDraws, H.fromSeed]
+  | datasetBimodal seed dsB dsM =>
+    simp [Rng.step, datasetBimodal_eq, World.map, Result.map, H.outDraws, H.fromSeed]
+
+theorem Hom.runLog (H : Hom A A' φ ψ) (cfg : Config) (w : World G) (h : List (Op Draw)) :
+    runLog A' cfg (w.map φ) h =
+      (runLog A cfg w h).map fun e => (e.1.map φ, e.2.map (Result.map ψ)) := by
+  induction h generalizing w with
+  | nil => rfl
+  | cons op h ih => simp [Rng.runLog, H.step, ih]
+
+/-- the free algebra maps onto every algebra. -/
+theorem interp_hom (A : GenAlg G Draw Out) (g0 : G) :
+    Hom (freeAlg Draw) A (interp A g0) (fun o => A.out (interp A g0 o.1) o.2) where
+  advance g d := by simp [interp, freeAlg, advDraws_append]
+  out g d := rfl
+  fromSeed n := rfl
+
+/-- under `Acyclic`, a term and a proper extension of it denote different states. -/
+theorem interp_prefix_ne (A : GenAlg G Draw Out) (hA : Acyclic A) (g0 : G) (t : Term Draw)
+    (ds : List Draw) (hds : ds ≠ []) : interp A g0 ⟨t.root, t.draws ++ ds⟩ ≠ interp A g0 t := by
+  simp only [interp, advDraws_append]
+  exact hA _ ds hds
 
 end
 end CopVerif.Model.Rng
